@@ -97,6 +97,21 @@ func (p *c05) Init(tier string) {
 		}
 	}
 	rec(nil)
+	// larger tables (sorting algorithms switch strategy with the length: 12, 50, ...)
+	for _, n := range []int{14, 33, 70} {
+		rows := []any{}
+		hasNil := false
+		for i := 0; i < n; i++ {
+			row := gq.CloneMap(arch[(i*5+i/3)%len(arch)])
+			row["id"] = float64(i)
+			if row["a"] == nil {
+				hasNil = true
+			}
+			rows = append(rows, row)
+		}
+		p.tables = append(p.tables, rows)
+		p.hasNil = append(p.hasNil, hasNil)
+	}
 }
 
 func (p *c05) NumCases() int { return len(p.cases) }
@@ -358,7 +373,7 @@ func (p *c05) runDistinct(r *core.CaseResult, c *c05case, sql string) {
 
 func (p *c05) Meta() core.Meta {
 	return core.Meta{
-		Rule: "one case per (key list in {none, a, a DESC, b, b DESC, 5 two-key lists}, limit in {absent,0..5}, offset in {absent,0..5}, both LIMIT spellings, with/without WHERE) and (SELECT DISTINCT b with {no key, b, b DESC} x limit 0..3 x offset absent,0..3), run on every table of <= 3 (thorough 5) rows over 7 archetypes (ties on each key, a NULL key; NULL tables skipped for two-key lists); non-trivial = the expected window has > 1 row or selects 1 of several",
+		Rule: "one case per (key list in {none, a, a DESC, b, b DESC, 5 two-key lists}, limit in {absent,0..5}, offset in {absent,0..5}, both LIMIT spellings, with/without WHERE) and (SELECT DISTINCT b with {no key, b, b DESC} x limit 0..3 x offset absent,0..3), run on every table of <= 3 (thorough 5) rows over 7 archetypes (ties on each key, a NULL key; plus three tables of 14, 33 and 70 rows; NULL tables skipped for two-key lists); non-trivial = the expected window has > 1 row or selects 1 of several",
 		Assumptions: []string{
 			"tie order is not fixed by the property: with ORDER BY the key tuples of the output are compared with those of the reference-sorted window, and the rows must be distinct source rows that passed WHERE",
 			"NULL placement is specified for a single sort key only",
